@@ -11,11 +11,14 @@ MANIFEST = dict(
          '|nodes| rounds; a code-following model of IRGenerator._filter_namespaces_by_route_whitelist / '
          '_find_dependencies_recursive / parse_data_types_and_routes_from_doc_ref (same calls in the same order, the seen set, '
          '"*" expansion, name:version syntax, namespace docs and the datatype whitelist as starting points) retains exactly the '
-         'data types of that closure under explicit, decidable side conditions that name the edge kinds the code does not '
-         'follow, never retains a data type outside it, keeps every whitelisted route and data type, keeps exactly the aliases whose '
-         'whole target is retained and leaves no dangling reference (data types, routes and aliases); '
-         'decided witnesses show each side condition is needed (docs of routes kept because a '
-         'doc mentions them, routes mentioned in route / namespace docs, inherited member docs read in the child namespace). Tied '
+         'data types and the routes of that closure (filter_eq_closure, filter_routes_eq_closure; side conditions refsOk / docsAgree / '
+         'tagDefaultsOk, which the driver evaluates on every dump and which every dump of a compiled Api satisfies), never retains a '
+         'data type outside it, keeps every whitelisted route and data type, keeps exactly the aliases whose '
+         'whole target is retained and leaves no dangling reference (data types, routes and aliases). The former side conditions '
+         'routeDocsClosed / seedDocRoutesKept and the failures of docsAgree named edge kinds the code did not follow (docs of routes kept '
+         'because a doc mentions them, routes mentioned in route / namespace docs, inherited member docs read in the child namespace, '
+         ':field: references through a namespace or an alias); the walk is repaired, the model follows it, the witnesses are kept as '
+         'regression examples of the now-correct behaviour. Tied '
          'to the code by differential runs of specs_to_ir(..., route_whitelist_filter=wl) against the compiled model on a dump of '
          'the unfiltered Api, an independent Python reference closure on the unfiltered Api as direct oracle (whitelisted kept, '
          'closed, nothing outside, dangling-reference scan of the filtered Api incl. what get_route_io_data_types reports) and a '
